@@ -20,6 +20,16 @@ class Inconclusive(Exception):
     """encoder gap, solver cap hit, unwinding bound hit: never reported as success"""
 
 
+class Ambient(Inconclusive):
+    """the path reached process-global mutable state, an environment source (clock, environment, thread / process identity, random
+    hasher seed) or an iteration whose order depends on a random hasher.  The C17 harness turns this into an obligation; for any
+    other harness it is an encoder gap (inconclusive)."""
+    def __init__(self, kind, detail):
+        Inconclusive.__init__(self, 'ambient state reached (%s): %s' % (kind, detail))
+        self.kind = kind
+        self.detail = detail
+
+
 class PathEnd(Exception):
     """path terminated on purpose (e.g. assumption infeasible)"""
 
